@@ -281,3 +281,81 @@ def _by_kind(c):
 
 
 walk._by_kind = staticmethod(_by_kind)
+
+
+# ------------------------------------------------------------------------------------------------ replay of _verify
+def _verify_replay(model, vc):
+    """the packages, the rule names and each rule's verdict (True / False / raises) of the solver's model, played through
+    the real _verify with stand-in rule functions installed in the real module"""
+    import logging
+    import dawgie.tools.compliant as comp
+    ev = lambda t: model.eval(t, model_completion=True)
+    uni = list(model.get_universe(ATOM.sort()) or [])
+    tasks_t = vc.inputs.get('tasks')
+    if tasks_t is None or not uni:
+        return None
+    tasks = [a for a in uni if z3.is_true(ev(tasks_t[a]))]
+    rules = [a for a in uni if z3.is_true(ev(RULES[a]))]
+    table = {(str(r), str(t)): ('raise' if z3.is_true(ev(rule_raises(r, t))) else bool(z3.is_true(ev(rule_ok(r, t))))) for r in rules for t in tasks}
+    names = {str(r): 'rule_replay_%d' % i for i, r in enumerate(rules)}
+    saved_get = comp._get_rules
+    installed = []
+    logging.disable(logging.CRITICAL)
+    try:
+        for r, fn_name in names.items():
+            def mk(r=r):
+                def rule(t):
+                    v = table[(r, t)]
+                    if v == 'raise':
+                        raise RuntimeError('stand-in rule raises')
+                    return v
+                return rule
+            setattr(comp, fn_name, mk())
+            installed.append(fn_name)
+        comp._get_rules = lambda: iter(sorted(names.values()))
+        got = comp._verify([str(t) for t in tasks], True, False)
+    except Exception as e:
+        return {'reproduced': True, 'input': {'verdicts': {'%s(%s)' % k: v for k, v in table.items()}}, 'observed': '%s: %s' % (type(e).__name__, e), 'expected': 'a boolean'}
+    finally:
+        comp._get_rules = saved_get
+        for n in installed:
+            delattr(comp, n)
+        logging.disable(logging.NOTSET)
+    want = all(v is True for v in table.values())
+    if bool(got) != want:
+        return {'reproduced': True, 'input': {'packages': [str(t) for t in tasks], 'verdicts': {'%s(%s)' % k: v for k, v in table.items()}},
+                'observed': got, 'expected': want}
+    # the model of a loop-step obligation describes an intermediate state, not necessarily a reachable run: vary it over the
+    # smallest inputs (two packages, two rules, each verdict True / False / raises) and report the first that fails for real
+    import itertools
+    for combo in itertools.product((True, False, 'raise'), repeat=4):
+        small = {('r0', 'p0'): combo[0], ('r1', 'p0'): combo[1], ('r0', 'p1'): combo[2], ('r1', 'p1'): combo[3]}
+        fns = {}
+        for r in ('r0', 'r1'):
+            def mk(r=r):
+                def rule(t):
+                    v = small[(r, t)]
+                    if v == 'raise':
+                        raise RuntimeError('stand-in rule raises')
+                    return v
+                return rule
+            fns['rule_replay_' + r] = mk()
+        logging.disable(logging.CRITICAL)
+        try:
+            for n, f in fns.items():
+                setattr(comp, n, f)
+            comp._get_rules = lambda: iter(sorted(fns))
+            g2 = comp._verify(['p0', 'p1'], True, False)
+        finally:
+            comp._get_rules = saved_get
+            for n in fns:
+                delattr(comp, n)
+            logging.disable(logging.NOTSET)
+        w2 = all(v is True for v in small.values())
+        if bool(g2) != w2:
+            return {'reproduced': True, 'found_by': 'varying the counter-model over the smallest inputs', 'input': {'packages': ['p0', 'p1'], 'verdicts': {'%s(%s)' % k: v for k, v in small.items()}},
+                    'observed': g2, 'expected': w2}
+    return {'reproduced': False, 'input': {'packages': [str(t) for t in tasks][:6]}, 'observed': got, 'expected': want}
+
+
+verify_.replay = staticmethod(_verify_replay)
